@@ -865,7 +865,10 @@ Definition cache_inv (out : list (name * (content * N))) (cache : list (digest *
 (** Every stamp in out/ and in the cache is older than the clock. *)
 Definition fresh (out : list (name * (content * N))) (cache : list (digest * built)) (clock : N) : Prop :=
   (forall o c s, lookup o out = Some (c, s) -> (s < clock)%N) /\
-  (forall d b o s, cache_get d cache = Some b -> In (o, s) b -> (s < clock)%N).
+  (forall d b o s, cache_get d cache = Some b -> In (o, s) b -> (s < clock)%N) /\
+  (* a recorded (output, stamp) belongs to one action digest only *)
+  (forall d d' b b' o s, cache_get d cache = Some b -> cache_get d' cache = Some b' ->
+                         In (o, s) b -> In (o, s) b' -> d = d').
 
 Lemma entry_ok_stamp out d b o s : entry_ok out d b -> In (o, s) b ->
   exists x0, o = fileset_out x0.
@@ -896,7 +899,7 @@ Lemma cache_inv_write out cache clock o c :
   cache_inv out cache -> fresh out cache clock ->
   cache_inv (set_assoc o (Some (c, clock)) out) cache.
 Proof.
-  intros Hinv [_ Hf] d b Hget. apply (entry_ok_out out); [auto|].
+  intros Hinv (_ & Hf & _) d b Hget. apply (entry_ok_out out); [auto|].
   intros o' s Hin c' Hl. destruct (String.eqb_spec o o') as [->|Hne].
   - rewrite lookup_set_same in Hl. injection Hl as _ <-.
     exfalso. specialize (Hf d _ o' clock Hget Hin). lia.
@@ -934,7 +937,7 @@ Qed.
 Lemma fresh_write out cache clock o c :
   fresh out cache clock -> fresh (set_assoc o (Some (c, clock)) out) cache (N.succ clock).
 Proof.
-  intros [H1 H2]. split.
+  intros (H1 & H2 & H3). split; [|split; [|exact H3]].
   - intros o' c' s Hl. destruct (String.eqb_spec o o') as [->|Hne].
     + rewrite lookup_set_same in Hl. injection Hl as _ <-. lia.
     + rewrite lookup_set_other in Hl by assumption. specialize (H1 _ _ _ Hl). lia.
@@ -944,7 +947,7 @@ Qed.
 Lemma fresh_delete out cache clock o :
   fresh out cache clock -> fresh (set_assoc o None out) cache (N.succ clock).
 Proof.
-  intros [H1 H2]. split.
+  intros (H1 & H2 & H3). split; [|split; [|exact H3]].
   - intros o' c' s Hl. destruct (String.eqb_spec o o') as [->|Hne].
     + rewrite lookup_set_same in Hl. discriminate.
     + rewrite lookup_set_other in Hl by assumption. specialize (H1 _ _ _ Hl). lia.
@@ -953,19 +956,40 @@ Qed.
 
 Lemma fresh_remove out cache clock d : fresh out cache clock -> fresh out (cache_remove d cache) clock.
 Proof.
-  intros [H1 H2]. split; [assumption|].
-  intros d' b o s Hg Hin. apply cache_get_remove_some in Hg. destruct Hg. eauto.
+  intros (H1 & H2 & H3). split; [assumption|]. split.
+  - intros d' b o s Hg Hin. apply cache_get_remove_some in Hg. destruct Hg. eauto.
+  - intros d1 d2 b1 b2 o s Hg1 Hg2 Hi1 Hi2.
+    apply cache_get_remove_some in Hg1. apply cache_get_remove_some in Hg2.
+    destruct Hg1, Hg2. eauto.
 Qed.
 
-Lemma fresh_put out cache clock d b :
-  fresh out cache clock -> (forall o s, In (o, s) b -> (s < clock)%N) ->
+(** storing an entry whose stamps are older than the clock and newer than
+    every stamp recorded so far *)
+Lemma fresh_put out out0 cache clock clock0 d b :
+  fresh out0 cache clock0 -> (clock0 <= clock)%N ->
+  (forall o c s, lookup o out = Some (c, s) -> (s < clock)%N) ->
+  (forall o s, In (o, s) b -> (clock0 <= s < clock)%N) ->
   fresh out (cache_put d b cache) clock.
 Proof.
-  intros [H1 H2] Hb. split; [assumption|].
-  intros d' b' o s Hg Hin. destruct (digest_eqb d d') eqn:E.
-  - apply digest_eqb_spec in E. subst. rewrite cache_get_put_same in Hg. injection Hg as <-.
-    now apply (Hb o s).
-  - apply digest_eqb_false in E. rewrite cache_get_put_other in Hg by assumption. eauto.
+  intros (_ & H2 & H3) Hle Hout Hb. split; [assumption|]. split.
+  - intros d' b' o s Hg Hin. destruct (digest_eqb d d') eqn:E.
+    + apply digest_eqb_spec in E. subst. rewrite cache_get_put_same in Hg. injection Hg as <-.
+      apply (Hb o s Hin).
+    + apply digest_eqb_false in E. rewrite cache_get_put_other in Hg by assumption.
+      specialize (H2 _ _ _ _ Hg Hin). lia.
+  - intros d1 d2 b1 b2 o s Hg1 Hg2 Hi1 Hi2.
+    destruct (digest_eqb d d1) eqn:E1; destruct (digest_eqb d d2) eqn:E2.
+    + apply digest_eqb_spec in E1, E2. congruence.
+    + apply digest_eqb_spec in E1. apply digest_eqb_false in E2. subst d1.
+      rewrite cache_get_put_same in Hg1. injection Hg1 as <-.
+      rewrite cache_get_put_other in Hg2 by assumption.
+      pose proof (Hb o s Hi1). pose proof (H2 _ _ _ _ Hg2 Hi2). lia.
+    + apply digest_eqb_spec in E2. apply digest_eqb_false in E1. subst d2.
+      rewrite cache_get_put_same in Hg2. injection Hg2 as <-.
+      rewrite cache_get_put_other in Hg1 by assumption.
+      pose proof (Hb o s Hi2). pose proof (H2 _ _ _ _ Hg1 Hi1). lia.
+    + apply digest_eqb_false in E1, E2.
+      rewrite cache_get_put_other in Hg1, Hg2 by assumption. eauto.
 Qed.
 
 Lemma lookup_In_pair {A} k (l : list (name * A)) v : lookup k l = Some v -> In (k, v) l.
@@ -1240,8 +1264,13 @@ Section Run.
                 rewrite Hk. exists l, (b_clock st). split; [reflexivity|]. split.
                 { apply (scont_mono L rules src HG g); [lia|assumption]. }
                 intros c Hl. rewrite lookup_set_same in Hl. now injection Hl as <-.
-          -- apply fresh_put.
-             ++ apply fresh_write. assumption.
+          -- apply fresh_put with (clock0 := b_clock st) (out0 := b_out st).
+             ++ exact Hf1.
+             ++ lia.
+             ++ intros o c s Hl. destruct (String.eqb_spec (fileset_out (nname x)) o) as [<-|Hne].
+                ** rewrite lookup_set_same in Hl. injection Hl as _ <-. lia.
+                ** rewrite lookup_set_other in Hl by assumption.
+                   destruct Hf as (F1 & _). specialize (F1 _ _ _ Hl). lia.
              ++ intros o s [[= <- <-]|[]]. lia.
         * (* a bundle *)
           rewrite (node_outs_bundle x r ds Hr Hk). cbn [new_built fold_right].
@@ -1254,7 +1283,9 @@ Section Run.
              split; [exact HG|]. split; [exact Hx|]. split; [exact Hty|]. split; [exact Hr|].
              split; [exact (visit_digest x r _ dd F Hx Hty Hr HF Hdd)|].
              rewrite Hk. reflexivity.
-          -- apply fresh_put; [assumption|]. intros o s [].
+          -- apply fresh_put with (clock0 := b_clock st) (out0 := b_out st);
+               [exact Hf1|lia| |intros o s []].
+             destruct Hf as (F1 & _). exact F1.
     - (* an output *)
       constructor; simpl; auto.
       + apply memo_ok_add; [assumption|]. intros F HF. simpl. rewrite Hx, Hty.
@@ -1502,7 +1533,7 @@ Lemma winv_empty rs src : winv (empty_world rs src).
 Proof.
   split.
   - intros d b H. discriminate.
-  - split; [intros o c s H; discriminate|intros d b o s H; discriminate].
+  - split; [intros o c s H; discriminate|split; [intros d b o s H; discriminate|intros d d' b b' o s H; discriminate]].
 Qed.
 
 (** * A build succeeds when the configuration says every file set can be computed *)
@@ -1696,7 +1727,7 @@ Proof.
   rewrite Hn in Hn2. injection Hn2 as <-.
   assert (Hw2 : winv (clean w)).
   { split; [intros d b H; discriminate|].
-    split; [intros o c s H; discriminate|intros d b o s H; discriminate]. }
+    split; [intros o c s H; discriminate|split; [intros d b o s H; discriminate|intros d d' b b' o s H; discriminate]]. }
   destruct (run_complete L (w_rules w) (w_src w) HG ts new [] [] (st0_of (clean w)))
     as (b2 & st2 & Hrun2 & Hinv2 & Hmemo2); auto.
   { exact (binv_st0 L (w_rules w) (w_src w) (clean w) Hw2). }
@@ -2400,27 +2431,104 @@ Theorem unchanged_not_rebuilt_hist h rs src ts w1 e1 L edits ts2 w3 e3 L2 :
     ~ In r e3.
 Proof. intros Hh w. apply unchanged_not_rebuilt. now apply cache_valid_hist. Qed.
 
-(** The full "exactly the dependents are re-executed" claim for rules with an
-    output (file sets): after a successful build and source/rule edits, a
-    reachable file set is executed by the next build of the same targets iff
-    its action digest differs from the one it had.  The direction "same
-    digest => not executed" is [unchanged_not_rebuilt]; the converse needs
-    the additional invariant that a stamp is recorded under one digest only
-    and is not proved here (for bundles, which have no output, and for a rule
-    that was not a file set before, the converse is false: an old digest can
-    still be valid in the cache, and then skipping the rule is right). *)
-Definition stmt_minimal_rebuild : Prop :=
-  forall h rs src ts w1 e1 L edits w3 e3 L2,
+(** * What changed is rebuilt (file sets) *)
+
+Lemma entry_ok_fs out d b nm fs ss is' dl outs :
+  entry_ok out d b -> d = DRuleD (RDFileSet nm fs ss is') dl outs ->
+  exists s, b = [(fileset_out nm, s)].
+Proof.
+  intros (L0 & rules0 & src0 & x0 & n0 & r0 & f & _ & Hn & Hty & Hr & Hd & Hk) ->.
+  destruct (sdig_of_rule _ _ _ _ _ _ _ _ Hn Hty Hr Hd) as (f' & dd & _ & _ & E).
+  injection E as Erd _ _. unfold rdigest_of in Erd.
+  pose proof (find_rule_name _ _ _ Hr) as Hnm.
+  destruct (r_kind r0); [|discriminate]. injection Erd as -> _ _ _.
+  destruct Hk as (l & s & -> & _). rewrite <- Hnm. eauto.
+Qed.
+
+(** After a successful build, source and rule edits (outputs left alone) and
+    another successful build of any targets: a file set that was reachable
+    before, is reachable now, and whose action digest differs from the one
+    it had, is executed. *)
+Theorem changed_is_rebuilt ts w w1 e1 L edits ts2 w3 e3 L2 :
+  winv w -> build_in_scope ts w -> load_world w ts = LOk L -> build ts w = (w1, e1, BOk) ->
+  forallb is_edit edits = true ->
+  let w2 := run edits w1 in
+  build_in_scope ts2 w2 -> load_world w2 ts2 = LOk L2 -> build ts2 w2 = (w3, e3, BOk) ->
+  forall r rl0 fs0 ss0 is0 rl fs ss is' F d F2 d2,
+    reach_rule L ts r -> reach_rule L2 ts2 r ->
+    find_rule r (w_rules w) = Some rl0 -> r_kind rl0 = KFileSet fs0 ss0 is0 ->
+    find_rule r (w_rules w2) = Some rl -> r_kind rl = KFileSet fs ss is' ->
+    sdig L (w_rules w) (w_src w) F r = Some d ->
+    sdig L2 (w_rules w2) (w_src w2) F2 r = Some d2 ->
+    d <> d2 -> In r e3.
+Proof.
+  intros Hw Hs Hl Hb Hed w2 Hs2 Hl2 Hb2 r rl0 fs0 ss0 is0 rl fs ss is' F d F2 d2
+         Hreach Hreach2 Hr0 Hk0 Hr2 Hk2 Hd Hd2 Hne.
+  pose proof (built_is_cached ts w w1 e1 L Hw Hs Hl Hb r F d Hreach Hd) as Hvalid.
+  destruct (run_edits_same edits w1 Hed) as (A & B & C). fold w2 in A, B, C.
+  assert (Hw1 : winv w1).
+  { pose proof (build_inv ts w Hw Hs) as H. now rewrite Hb in H. }
+  assert (Hw2 : winv w2).
+  { unfold winv. rewrite A, B, C. exact Hw1. }
+  apply (exec_iff ts2 w2 w3 e3 L2 Hw2 Hs2 Hl2 Hb2). split; [assumption|].
+  exists F2, d2. split; [assumption|]. rewrite A, B. intros Hvalid2.
+  destruct Hw1 as [Hc1 (_ & _ & Huniq)].
+  (* shapes of the two digests and of their entries *)
+  destruct Hreach as (t & n & _ & _ & Hn & Hty).
+  destruct (sdig_of_rule _ _ _ _ _ _ _ _ Hn Hty Hr0 Hd) as (f1 & dd1 & _ & _ & E1).
+  destruct Hreach2 as (t2 & n2 & _ & _ & Hn2 & Hty2).
+  destruct (sdig_of_rule _ _ _ _ _ _ _ _ Hn2 Hty2 Hr2 Hd2) as (f2 & dd2 & _ & _ & E2).
+  unfold rdigest_of in E1, E2. rewrite Hk0 in E1. rewrite Hk2 in E2.
+  rewrite (find_rule_name _ _ _ Hr0) in E1. rewrite (find_rule_name _ _ _ Hr2) in E2.
+  destruct Hvalid as (b1 & Hg1 & Hsame1). destruct Hvalid2 as (b2 & Hg2 & Hsame2).
+  destruct (entry_ok_fs _ _ _ _ _ _ _ _ _ (Hc1 _ _ Hg1) E1) as [s1 ->].
+  destruct (entry_ok_fs _ _ _ _ _ _ _ _ _ (Hc1 _ _ Hg2) E2) as [s2 ->].
+  apply same_built_single in Hsame1, Hsame2.
+  destruct Hsame1 as [c1 Hl1]. destruct Hsame2 as [c2 Hl2']. rewrite Hl1 in Hl2'.
+  injection Hl2' as _ <-.
+  apply Hne. apply (Huniq d d2 _ _ (fileset_out r) s1 Hg1 Hg2); now left.
+Qed.
+
+Theorem changed_is_rebuilt_hist h rs src ts w1 e1 L edits ts2 w3 e3 L2 :
   hist_in_scope h (empty_world rs src) ->
   let w := run h (empty_world rs src) in
   build_in_scope ts w -> load_world w ts = LOk L -> build ts w = (w1, e1, BOk) ->
   forallb is_edit edits = true ->
   let w2 := run edits w1 in
-  build_in_scope ts w2 -> load_world w2 ts = LOk L2 -> build ts w2 = (w3, e3, BOk) ->
+  build_in_scope ts2 w2 -> load_world w2 ts2 = LOk L2 -> build ts2 w2 = (w3, e3, BOk) ->
   forall r rl0 fs0 ss0 is0 rl fs ss is' F d F2 d2,
-    reach_rule L ts r -> reach_rule L2 ts r ->
+    reach_rule L ts r -> reach_rule L2 ts2 r ->
+    find_rule r (w_rules w) = Some rl0 -> r_kind rl0 = KFileSet fs0 ss0 is0 ->
+    find_rule r (w_rules w2) = Some rl -> r_kind rl = KFileSet fs ss is' ->
+    sdig L (w_rules w) (w_src w) F r = Some d ->
+    sdig L2 (w_rules w2) (w_src w2) F2 r = Some d2 ->
+    d <> d2 -> In r e3.
+Proof. intros Hh w. apply changed_is_rebuilt. now apply cache_valid_hist. Qed.
+
+(** Both directions together: exactly the file sets whose action digest
+    changed are re-executed. *)
+Theorem minimal_rebuild_hist h rs src ts w1 e1 L edits ts2 w3 e3 L2 :
+  hist_in_scope h (empty_world rs src) ->
+  let w := run h (empty_world rs src) in
+  build_in_scope ts w -> load_world w ts = LOk L -> build ts w = (w1, e1, BOk) ->
+  forallb is_edit edits = true ->
+  let w2 := run edits w1 in
+  build_in_scope ts2 w2 -> load_world w2 ts2 = LOk L2 -> build ts2 w2 = (w3, e3, BOk) ->
+  forall r rl0 fs0 ss0 is0 rl fs ss is' F d F2 d2,
+    reach_rule L ts r -> reach_rule L2 ts2 r ->
     find_rule r (w_rules w) = Some rl0 -> r_kind rl0 = KFileSet fs0 ss0 is0 ->
     find_rule r (w_rules w2) = Some rl -> r_kind rl = KFileSet fs ss is' ->
     sdig L (w_rules w) (w_src w) F r = Some d ->
     sdig L2 (w_rules w2) (w_src w2) F2 r = Some d2 ->
     (In r e3 <-> d <> d2).
+Proof.
+  intros Hh w Hs Hl Hb Hed w2 Hs2 Hl2 Hb2 r rl0 fs0 ss0 is0 rl fs ss is' F d F2 d2
+         Hreach Hreach2 Hr0 Hk0 Hr2 Hk2 Hd Hd2.
+  split.
+  - intros Hin E. subst d2.
+    exact (unchanged_not_rebuilt_hist h rs src ts w1 e1 L edits ts2 w3 e3 L2 Hh Hs Hl Hb Hed Hs2 Hl2 Hb2
+             r F d F2 Hreach Hd Hd2 Hin).
+  - intros Hne.
+    exact (changed_is_rebuilt_hist h rs src ts w1 e1 L edits ts2 w3 e3 L2 Hh Hs Hl Hb Hed Hs2 Hl2 Hb2
+             r rl0 fs0 ss0 is0 rl fs ss is' F d F2 d2 Hreach Hreach2 Hr0 Hk0 Hr2 Hk2 Hd Hd2 Hne).
+Qed.
